@@ -659,10 +659,10 @@ def check(pid, tier, seed):
 def replay(path):
     payload = json.load(open(path))
     pid = payload["property"]
-    if "ops" not in payload:
+    if "ops" not in payload or payload.get("replay_argv"):
         log(json.dumps(payload, indent=1))
         if payload.get("replay_argv"):
-            rc, out, err = sh(payload["replay_argv"], cwd=ROOT, check=False)
+            rc, out, err = sh(payload["replay_argv"] + [os.path.abspath(path)], cwd=ROOT, check=False)
             log(out + err)
             return rc
         return 0
